@@ -17,7 +17,7 @@ CHECKS = {
         ],
         fuzz=[("FuzzPaths", 45)],
         rule="rapid draws (canonical dir of depth 0..5, list of 0..8 names over an alphabet holding every special form "
-             "plus short random strings over {. / \\ a b NUL space}); ValidPath/WalkName/CreateName/NormalizePath/ToWalk are "
+             "plus short random strings over {. / \\ a b NUL space}; 1 list in 15 has 12..43 names); ValidPath/WalkName/CreateName/NormalizePath/ToWalk are "
              "compared with a reference stack-machine resolver. Non-trivial = the list contains an empty, '.', '..' or "
              "separator-containing element; distinct = distinct (dir, list, abs) by 64-bit hash. The Exhaustive test "
              "additionally enumerates all lists of length <=3 (quick) / <=4 (thorough) over the 20-element alphabet x all "
@@ -106,7 +106,8 @@ CHECKS = {
         rule="sequential histories of 1..40 (thorough 80) session operations (attach/walk/open/create/read/write/stat/wstat/clunk/remove) on p9p.SFileSys over an "
              "instrumented mock file system; fids from a 5-value pool plus NOFID and a never-bound value; name lists incl. '..', missing, non-normal; ~8% of operations "
              "have a file-system failure or a partial walk injected; 8% are called with a context that is already cancelled; two of the mock's directories and some created files carry "
-             "composite qid types (QTDIR|QTTMP, QTDIR|QTAPPEND|QTEXCL, QTAPPEND). After every step the result and (via the verif hook) the real fid table are compared with a "
+             "composite qid types (QTDIR|QTTMP, QTDIR|QTAPPEND|QTEXCL, QTAPPEND); half of the failing open/opendir/create calls hand back non-nil placeholder values next to their error (as ramfs does), "
+             "and one history in six contains such a failure followed by read/open/read on the same fid; a third of the wstats are the all-'don't touch' (sync) record. After every step the result and (via the verif hook) the real fid table are compared with a "
              "reference fid table written from the property text. Non-trivial = the history contains a walk onto a bound fid, an in-place walk, a partial walk, reuse of a "
              "clunked fid, or read/write on a wrongly opened fid; distinct by hash of the history.",
         require_classes=dict(quick=["walk_onto_bound", "inplace_walk", "partial_walk", "reuse_after_clunk", "io_wrong_mode", "attach_onto_bound", "second_open", "nofid", "fs_error_injected"], thorough=[]),
@@ -132,11 +133,12 @@ CHECKS = {
         groups=[G("^TestC20_Client$", 1500, 80000)],
         rule="histories of 2..30 (thorough 60) file-system-level operations (Attach/Walk/Open/OpenDir/Create/Stat/WStat/Clunk/Remove/read) on entries obtained from "
              "p9p.CFileSys layered over a recording spy over SFileSys(mockfs); walk name lists include '.', '', 'x/..' forms, missing and partial targets, separators; "
-             "10% injected file-system failures; a third of the reads fail in transit (an I/O error that is not end-of-file, before reaching the session); 1 walk in 12 names a chain of 16..23 "
+             "10% injected file-system failures; a third of the wstats are all-'don't touch' records (exactly one session call is still due); a sixth of the clunks/removes fail in transit (the fid stays bound on the server "
+             "and the caller retries later); a third of the reads fail in transit (an I/O error that is not end-of-file, before reaching the session); 1 walk in 12 names a chain of 16..23 "
              "directories (complete, with a missing element near the end, or cut short by the server); 1 case in 15 runs against a server that exports a single regular file. Oracle: the spy shows exactly the corresponding session call on the entry's own fid; live entries and server fids "
              "(read through the verif hook) correspond one to one after every step; a walk is reported as success iff the server completed it; after clunking every "
              "entry the server table is empty. Non-trivial = a walk whose names are changed by normalisation, or a partial walk.",
-        require_classes=dict(quick=["walk_normalised", "walk_partial", "walk_complete", "walk_failed", "create_ok", "walk_over_16_names", "file_rooted_export", "read_fails_in_transit"], thorough=[]),
+        require_classes=dict(quick=["walk_normalised", "walk_partial", "walk_complete", "walk_failed", "create_ok", "walk_over_16_names", "file_rooted_export", "read_fails_in_transit", "wstat_sync", "release_fails_in_transit"], thorough=[]),
         assumptions=["operations are only issued on live entries (using an entry after Clunk/Remove is caller misuse)",
                      "Create with a name the client rejects locally may legitimately issue no session call"],
     ),
@@ -179,7 +181,7 @@ CHECKS = {
         groups=[G("^TestC06_Script$", 400, 20000)],
         rule="scripts of 1..30 (thorough 50) steps against the real ServeConn with a scripted Handler and a raw reference-codec client: send (any of the 27 kinds except Tflush, "
              "tags from a 16-value universe incl. 0/0xFFFE/0xFFFF, unique marker embedded in the message), complete (a parked handler chosen by index returns a generated R message "
-             "or an error, MessageRerror or plain), one third of the steps pipelined without waiting; 1/6 of the sends reuse the tag of a request whose handler is parked. "
+             "or an error, MessageRerror or plain, incl. texts with '%', texts of 127/128/216 bytes, multi-byte texts, 'duplicate tag'), one third of the steps pipelined without waiting; 1/6 of the sends reuse the tag of a request whose handler is parked. "
              "Both buffered and rendezvous (net.Pipe-like) connections; msize 400..1 MiB. Oracle: multiset of owed replies; every frame must match an owed reply exactly (tag, "
              "content, marker), handler invoked exactly once per dispatched request with the message sent (inbound Tread count clamp applied), duplicate-tag request gets the "
              "duplicate-tag error and no invocation, nothing extra at quiescence. One script in 12 runs on top of 100..300 requests sent back to back and left outstanding "
@@ -215,12 +217,13 @@ CHECKS = {
              "(walk, walk in place, clone, attach, open, opendir, create, read, write, stat, wstat, clunk, remove) are in flight: parked inside the mock file system holding their fid locks "
              "(returning when their context is cancelled, or only after Stop has been entered; a quarter of them then fail with the context's error, as a cancelled file system does, "
              "and for a walk in place only the session's Clunk of the old entry may fail), or completing normally in a burst at that instant; read/write/stat/wstat requests may share one "
-             "open fid (queueing behind its lock), and a third of those have a slow handler goroutine that reaches the session only while Stop is inside that fid's Clunk; optionally the client has "
+             "open fid (queueing behind its lock), and a third of those have a slow handler goroutine that reaches the session only while Stop is inside that fid's Clunk; in a third of the cases the file system's "
+             "Clunk honours its context (the clunks issued by Stop return when that context is done); optionally the client has "
              "stopped reading replies. Then one fault: read error after 0..30 bytes of a further frame, write error after 0..30 further output bytes (or under a blocked write), "
              "peer close, or context cancel. Oracle: ServeConn returns within 10 s; the context of every parked handler is cancelled; handlers return; Stop ran exactly once; "
              "afterwards the fid table (verif hook) has nothing bound or locked and every entry the mock handed out has exactly one release; a crash of the process is reported "
              "through the journal. Non-trivial = at least one handler in flight at the fault; distinct by hash of the scenario.",
-        require_classes=dict(quick=["fault_readerr", "fault_writeerr", "fault_peerclose", "fault_cancel", "client_not_reading", "duptag_in_flight", "fs_call_fails_when_cancelled", "inflight_on_shared_open_fid", "slow_handler_meets_stop", "inflight_walkinplace"] + ["inflight_" + k for k in "walk clone attach open opendir create read write stat wstat clunk remove".split()],
+        require_classes=dict(quick=["fault_readerr", "fault_writeerr", "fault_peerclose", "fault_cancel", "client_not_reading", "duptag_in_flight", "fs_call_fails_when_cancelled", "inflight_on_shared_open_fid", "slow_handler_meets_stop", "inflight_walkinplace", "clunk_honours_stop_context"] + ["inflight_" + k for k in "walk clone attach open opendir create read write stat wstat clunk remove".split()],
                              thorough=[f + "×" + k for f in ("readerr", "writeerr", "peerclose", "cancel") for k in "walk clone attach open opendir create read write stat wstat clunk remove".split()]),
         assumptions=["handlers return once cancelled (the property's proviso): parked file-system calls return when their context is done, some only after Stop was entered",
                      "'within bounded time' is tested as 10 s (normal: well under a millisecond); the library's own 30 s I/O deadline never comes into play on these connections",
@@ -272,7 +275,7 @@ CHECKS = {
         groups=[G("^TestC09_Seq$", 1500, 15000), G("^TestC09_Conc$", 100, 1500), G("^TestC09_ProbeD14$", 1, 1, shard=False)],
         rule="CSession <-> in-memory connection <-> ServeConn(SSession(S)) with S a recording session returning generated results. Sequential: 1..12 calls per connection over all 11 "
              "Session methods with boundary-biased arguments (fids, int64 offsets incl. negative and 2^63-1, buffer/data lengths around msize-11 / msize-23 and far beyond, all modes, perms, "
-             "0..20 walk names, Dir records with sub-second times), results or errors (MessageRerror, plain, or a Go error wrapping a MessageRerror) from S; in a quarter of the cases the transport "
+             "0..20 walk names, Dir records with sub-second times), results or errors (MessageRerror, plain, or a Go error wrapping a MessageRerror; texts with format verbs, texts the library itself uses, texts of 127/128/300 bytes) from S - the caller's error must read, at its end, exactly S's text; in a quarter of the cases the transport "
              "hands over at most 1..7 bytes per Read in both directions; negotiated msize forced to 128..65535 by rewriting the client's Tversion in flight. "
              "Oracle: S received exactly the caller's arguments and the caller exactly S's results up to the documented limits (read/write clipped to msize-11/msize-23, ErrShortWrite, whole-second "
              "times, >16 names refused locally, 0-byte read may surface as io.EOF, errors by text). Concurrent: 2..4 (rendezvous) / 2..32 (buffered) callers x 1..12 calls whose results derive from the "
@@ -287,11 +290,13 @@ CHECKS = {
         groups=[G("^TestC10_ServerNeg$", 750, 10000), G("^TestC10_ClientNeg$", 750, 10000)],
         rule="(a) real ServeConn vs a scripted client proposing any msize in [0, 2^32) (dense at 0..30, 18..24, 2^16+-2, 2^31+-1, 2^32-1) with arbitrary version strings, or a first message that is "
              "not Tversion; then maximal traffic: a Twrite frame of exactly the agreed size (must reach the handler intact), a Tread with count 2^32-1 (handler must see count <= agreed-11, the maximal Rread "
-             "must be emitted whole and within msize), a handler result that does not fit (must not be emitted oversize), a frame of agreed+1 bytes (must not be dispatched). (b) real CSession vs a scripted "
-             "server answering any msize; Version() must be min(65536, answer); then every Session method is called with oversized arguments and every frame the client emits must be <= agreed, and a maximal "
+             "must be emitted whole and within msize), a handler result that does not fit (must not be emitted oversize), a frame of agreed+1 bytes (must not be dispatched); the oversize handler result is an Rread, an error text, an Rstat or an Rwalk that cannot fit; 1 case in 6 sends a second Tversion in "
+             "mid-connection (refused or accepted - what the server answers is what both directions must honour from then on); 1 in 25: the client stays silent for six negotiation windows (read deadlines scaled) and "
+             "then sends a non-version message (must be refused). (b) real CSession vs a scripted "
+             "server answering any msize; Version() must be min(65536, answer); then every Session method is called with oversized arguments (incl. a walk whose 16 names add up to more than 65535 bytes) and every frame the client emits must be <= agreed, unsolicited frames after the negotiation (unknown tag, agreed+1 bytes) must not crash the client, and a maximal "
              "read (Rread frame of exactly the agreed size) must be delivered. Refusals: ServeConn must return an error and the handler must see neither Handle nor Stop. "
              "Non-trivial = min(proposal, answer) < 65536 or a refusal.",
-        require_classes=dict(quick=["negotiated", "refused_first_message_not_version", "refused_msize_too_small_for_rversion", "max_twrite_delivered", "max_rread_emitted", "oversize_not_dispatched", "agreed_below_24", "emitted_read", "refused_read"], thorough=[]),
+        require_classes=dict(quick=["negotiated", "refused_first_message_not_version", "refused_msize_too_small_for_rversion", "max_twrite_delivered", "max_rread_emitted", "oversize_not_dispatched", "agreed_below_24", "emitted_read", "refused_read", "refused_silent_during_negotiation_window", "second_tversion_refused", "refused_walk_big", "unsolicited_frames_after_negotiation"], thorough=[]),
         assumptions=["the server's own maximum is 65536 (DefaultMSize) and the client proposes 65536, as the code documents",
                      "19 bytes (the Rversion frame for '9P2000') is the smallest proposal that can carry the version reply"],
     ),
@@ -304,7 +309,8 @@ CHECKS = {
              "through removed directories), clone, create file/dir, open, read, write, truncate (wstat length), stat, clunk, remove, list; offsets over the whole int64 range "
              "(dense at 0, len-1, len, len+1, 2^31, 2^63-1, -1, -2^63), counts 0..64 KiB; a third of the histories start with a canned prelude (parameters generated) that creates a stale handle "
              "to a removed-and-recreated name, a handle inside a removed directory, or a directory with a child held through three fids, removed through the first, 'removed' again through the second "
-             "(refused) and then used through the third. Oracle: a model tree keyed by node identity (removed-but-referenced nodes live on); reads must return exactly "
+             "(refused) and then used through the third; a fifth of the truncations also carry a new name (ramfs refuses renames: nothing may change); writes are issued from a per-session buffer that is overwritten "
+             "right after each call; half of the file preludes truncate the file and read between the new and the old length. Oracle: a model tree keyed by node identity (removed-but-referenced nodes live on); reads must return exactly "
              "the model's bytes, listings (as sets) exactly the live children plus '..', walks and qids as in the model, no call may panic; after clunking every fid the validator requires "
              "nref == parent links for every node. Concurrent variants: one goroutine per session; all sessions creating one name at the same instant (exactly one wins); one session creating 150..1800 names while the "
              "others spin on walking to the name about to appear; race detector, no panic, final validator. "
@@ -323,12 +329,13 @@ CHECKS = {
              "depths 0..3: walk / create / rename (wstat name) with names from a hostile alphabet ('..', '.', '', '../x', '../outside.txt', '../export-evil/secret.txt', '/etc/passwd', 'a/../../x', "
              "'..\\x', '\\', NUL, 300-byte names, '../' x 40, chains of '..' longer than the depth followed by an outside target) in every name-carrying field, plus open/read/write/chmod/truncate/"
              "remove/list on whatever got bound, incl. attempts on the root; creates also with the special permission bits (DMSYMLINK, DMNAMEDPIPE, DMDEVICE, DMSOCKET, DMAPPEND, DMEXCL, DMTMP, DMAUTH, DMMOUNT); "
-             "renames also with names that move the object upwards inside the export ('../k2', '../../k2', ...), half of the renames followed at once by a climb ('..' x 1..4 + an outside target) from the renamed fid; "
+             "attaches with hostile attach names (the qid returned must be the exported root's); one case in 12 exports a single regular file (opened with ORCLOSE and clunked), one in 12 creates the server with an empty root string while the "
+             "working directory is the export; renames also with names that move the object upwards inside the export ('../k2', '../../k2', ...), half of the renames followed at once by a climb ('..' x 1..4 + an outside target) from the renamed fid; "
              "'time passes' steps that change the exported directory's mtime on the host, followed by a root fid obtained afresh (clone, '..' from below, new attach) and an attempt to remove or rename it; "
              "a fifth of the cases on an empty export. No symlinks are created. Oracle after every step: the snapshot (names, types, perms, sizes, contents, inodes, mtimes) of everything "
              "under top but outside top/export is unchanged; top/export is still the same inode; no returned qid path is the inode of an outside object; no read returned the outside sentinel. "
              "Non-trivial = a hostile name (containing '..', a separator, NUL, empty, '.' or over-long) was used.",
-        require_classes=dict(quick=["hostile_name_used", "empty_export"], thorough=[]),
+        require_classes=dict(quick=["hostile_name_used", "empty_export", "file_rooted_export", "server_created_with_empty_root"], thorough=[]),
         assumptions=["decided on this kernel/file system, running as root; symbolic links are outside the guarantee and never created",
                      "a bare stat() outside the export that leaves no trace in any result is not observable by this check"],
     ),
@@ -337,9 +344,10 @@ CHECKS = {
         level="exploration",
         groups=[G("^TestC19_Mirror$", 300, 12000)],
         rule="histories of up to 30 (thorough 60) operations on SFileSys(ufs.NewServer(export)) over a small tree: create file (permission bits x open mode), mkdir, walk (incl. '..'), open "
-             "(OREAD/OWRITE/ORDWR/OEXEC with and without OTRUNC, also combined with the option bits OCEXEC and ORCLOSE), read/write at offsets 0..60 and -1, chmod, truncate (0..4096, 2^63), rename (names from a small alphabet so that collisions and "
+             "(OREAD/OWRITE/ORDWR/OEXEC with and without OTRUNC, also combined with the option bits OCEXEC and ORCLOSE), names that begin with two dots but are not '..' ('..data', '...'), read/write at offsets 0..60 and -1, chmod, truncate (0..4096, 2^63), rename (names from a small alphabet so that collisions and "
              "renames onto existing files/dirs occur), remove, stat and listing through freshly walked fids; a fifth of the histories contain a block in which a fid keeps pointing at a name while the "
-             "object of that name is replaced, through other fids, by one of the other kind (file <-> directory), after which the stale fid is removed/renamed/stat'ed. Oracle: a twin directory driven by the equivalent direct OS call per operation "
+             "object of that name is replaced, through other fids, by one of the other kind (file <-> directory), after which the stale fid is removed/renamed/stat'ed; a sixth contain an open fid that is renamed (successfully or onto something the host refuses) and then written and read, and a sixth list a "
+             "directory, change one of its entries (write, chmod, truncate) without changing the directory, and list it again. Oracle: a twin directory driven by the equivalent direct OS call per operation "
              "(OpenFile(O_CREATE|flags, perm&0777), Mkdir, OpenFile(flags), ReadAt, WriteAt, Truncate, Chmod(mode&0777), rename(2), Remove); after every step the two trees must be identical "
              "(names, types, permission bits, sizes, contents), the session must succeed exactly when the direct operation does, data read through a fid must equal the twin file's bytes, and fresh stats / "
              "listings must match Lstat/ReadDir of the export (name, DMDIR/QTDIR, permission bits, length, whole-second mtime, qid path = inode). "
